@@ -197,6 +197,14 @@ def observe(op, t, t2):
         _ = t.getShape(), t.getShape(authoritative=True), root.getShape(), root.estimateShape(), t.getDepth(), root.getDepth(), t.getRankIds(), root.getRankIds()
         _ = root.getCoords(), root.getPayloads(), root.getActive(), root.getDefault(), t.getDefault(), t.isMutable()
         _ = root.getPosition(0), root.getPosition(9)
+        # item access by position: plain, negative, slices, through the tensor, nested keys; iteration protocol of the tensor itself
+        if root.coords:
+            _ = root[0], root[-1], root[0:2], root[::2], t[0], t[-1], t[0:1]
+            if depth >= 2 and isinstance(root.payloads[0], Fiber) and root.payloads[0].coords:
+                _ = root[0, 0], t[0, 0], root[0:1, 0]
+        for _x in t:
+            pass
+        _ = list(reversed(t)), len(root), root.getDepth(), root.getRankIds()
     elif op == "print":
         _ = str(t), repr(t), f"{t}", str(root), repr(root), f"{root}", f"{root:n*}"
         with contextlib.redirect_stdout(io.StringIO()):
